@@ -14,8 +14,18 @@ impl Linter for LongSentences {
             let word_count = sentence.iter_words().count();
 
             if word_count > 40 {
+                // The last token may be a zero-width break that a parser placed elsewhere (Markdown
+                // puts a paragraph's break at the paragraph's start): take the furthest end.
+                let start = sentence[0].span.start;
+                let end = sentence
+                    .iter()
+                    .map(|t| t.span.end)
+                    .max()
+                    .unwrap_or(start)
+                    .max(start);
+
                 output.push(Lint {
-                    span: Span::new(sentence[0].span.start, sentence.last().unwrap().span.end),
+                    span: Span::new(start, end),
                     lint_kind: LintKind::Readability,
                     message: format!("This sentence is {} words long.", word_count),
                     ..Default::default()
